@@ -34,8 +34,8 @@ def plan(tier, seed):
         s += [{"kind": "rle", "cases": 400}]
         s += [{"kind": "big", "variant": v} for v in range(3)]
         return s
-    s = [{"kind": "c01", "sub": i, "cases": 150} for i in range(12)]
-    s += [{"kind": "hist", "sub": i, "cases": 18} for i in range(24)]
+    s = [{"kind": "c01", "sub": i, "cases": 300} for i in range(24)]
+    s += [{"kind": "hist", "sub": i, "cases": 30} for i in range(48)]
     s += [{"kind": "rle", "cases": 4000, "sub": i} for i in range(2)]
     s += [{"kind": "big", "variant": v} for v in range(6)]
     return s
